@@ -173,8 +173,8 @@ func (wgb *WeightedAuthorizationModelGraphBuilder) parseThis(wg *WeightedAuthori
 
 	for _, directlyRelatedDef := range directlyRelated {
 		switch {
-		case directlyRelatedDef.GetRelationOrWildcard() == nil:
-			// direct assignment to concrete type
+		case directlyRelatedDef.GetWildcard() == nil && directlyRelatedDef.GetRelation() == "":
+			// direct assignment to concrete type (also when the relation is present but empty)
 			assignableType := directlyRelatedDef.GetType()
 			curNode = wg.GetOrAddNode(assignableType, assignableType, SpecificType)
 		case directlyRelatedDef.GetWildcard() != nil:
